@@ -53,6 +53,24 @@ Proof.
   destruct (pid =? pgid)%Z; simpl; [destruct (ws_exit_status (ws_of_exit c) =? 0)%Z|]; simpl; repeat split; auto; discriminate.
 Qed.
 
+Lemma handle_sig st pgid pid sg tr : h_execved st = true -> (1 <= sg)%N -> (sg < 128)%N ->
+  let o := handle st pgid pid (ws_of_stop sg 0) SoOk tr in
+  h_execved (o_state o) = true /\ o_finished o = false /\
+  ((o_status o = Normal /\ exists s, o_reqs o = pre_of st pid ++ [ReqCont s]) \/
+   ((o_status o = TimeLimit \/ o_status o = OutputLimit) /\ o_reqs o = pre_of st pid)).
+Proof.
+  intros He H1 H2. cbv zeta. destruct (decode_stop sg 0 H2 ltac:(lia)) as [E1 [E2 [E3 [E4 E5]]]].
+  unfold handle, pre_of. rewrite E1, E2, E3, E4.
+  assert (forall (P : Prop), P -> P) as K by auto.
+  destruct (zmem pid (h_traced st)); cbn [negb andb app];
+    (destruct (Z.of_N sg =? SIGTRAP)%Z eqn:Et;
+     [apply Z.eqb_eq in Et; unfold SIGTRAP in Et; assert (sg = 5%N) as Hs by lia; rewrite (E5 Hs)
+     |destruct (Z.of_N sg =? SIGXCPU)%Z; [|destruct (Z.of_N sg =? SIGXFSZ)%Z]]);
+    simpl; rewrite ?He; simpl; rewrite ?He;
+    (split; [first [reflexivity|exact He]|split; [reflexivity|]]);
+    first [left; split; [reflexivity|eexists; reflexivity] | right; split; [auto|reflexivity]].
+Qed.
+
 (** ** tasks *)
 Lemma find_in pid ts t : find_task pid ts = Some t -> In t ts /\ t_pid t = pid.
 Proof. unfold find_task. intros H. apply find_some in H. destruct H as [H1 H2]. split; [exact H1|]. apply Z.eqb_eq. exact H2. Qed.
@@ -204,9 +222,9 @@ Proof.
   intros Hx. rewrite (K Hx) in Hd. discriminate.
 Qed.
 
-Lemma apply_cont_other w pid t sg : find_task pid (w_tasks w) = Some t -> (t_st t = InitStop \/ exists c, t_st t = EvStop c) ->
+Lemma apply_cont_other w pid t sg : find_task pid (w_tasks w) = Some t -> (t_st t = InitStop \/ (exists c, t_st t = EvStop c) \/ exists g, t_st t = SigStop g) ->
   apply_req decide pid w (ReqCont sg) = with_tasks w (upd pid set_run (w_tasks w)).
-Proof. intros Hf [Hs|[c Hs]]; unfold apply_req; rewrite Hf, Hs; reflexivity. Qed.
+Proof. intros Hf [Hs|[[c Hs]|[g Hs]]]; unfold apply_req; rewrite Hf, Hs; reflexivity. Qed.
 
 Lemma step_other w pid t : Inv w -> w_done w = None -> find_task pid (w_tasks w) = Some t ->
   (t_st t = InitStop \/ exists c, t_st t = EvStop c) -> Inv (step decide pgid w (TWait pid)).
@@ -231,6 +249,33 @@ Proof.
   - discriminate.
 Qed.
 
+Lemma step_sig w pid t g : Inv w -> w_done w = None -> find_task pid (w_tasks w) = Some t -> t_st t = SigStop g -> (1 <= g)%N -> (g < 128)%N ->
+  Inv (step decide pgid w (TWait pid)).
+Proof.
+  intros I Hd Hf Hs G1 G2. unfold step. rewrite Hd, Hf, Hs. cbn [wstatus_of].
+  assert ((N.leb 1 g && N.ltb g 128)%bool = true) as -> by (apply andb_true_iff; split; [apply N.leb_le|apply N.ltb_lt]; assumption).
+  pose proof (handle_sig (w_tr w) pgid pid g (tres_of decide t) (i_execved w I) G1 G2) as H. cbv zeta in H.
+  destruct H as [He [Hfin [[Hst [sg Hr]]|[Hst Hr]]]]; rewrite Hr, Hfin.
+  - rewrite Hst, fold_left_app, (apply_pre w pid _ (i_tasks w I)). cbn [fold_left].
+    rewrite (apply_cont_other w pid t sg Hf) by eauto.
+    cbn. constructor; cbn.
+    + apply (i_exec w I).
+    + apply (i_ret w I).
+    + apply tasks_ok_upd; [apply (i_tasks w I)|apply setters_ok_run].
+    + exact He.
+    + apply (inv_dec_keep w I Hd); auto.
+    + discriminate.
+  - rewrite (apply_pre w pid _ (i_tasks w I)).
+    assert (orb false (negb (status_code (o_status (handle (w_tr w) pgid pid (ws_of_stop g 0) SoOk (tres_of decide t))) =? 1)%N) = true) as -> by (destruct Hst as [-> | ->]; reflexivity).
+    constructor; cbn.
+    + apply (i_exec w I).
+    + apply (i_ret w I).
+    + apply tasks_ok_gone. intros x Hx. apply (i_tasks w I). exact Hx.
+    + exact He.
+    + intros p i d E. destruct (i_dec w I p i d E) as [A [B [C K]]]. repeat split; auto. intros Hx. rewrite (K Hx) in Hd. discriminate.
+    + intros s _ x Hx. apply gone_all in Hx. tauto.
+Qed.
+
 Lemma step_zombie w pid t c : Inv w -> w_done w = None -> find_task pid (w_tasks w) = Some t -> t_st t = Zombie c ->
   Inv (step decide pgid w (TWait pid)).
 Proof.
@@ -249,7 +294,7 @@ Proof.
   intros I. destruct (w_done w) eqn:Hd; [unfold step; rewrite Hd; exact I|].
   assert (forall ts, tasks_ok ts -> Inv (with_tasks w ts)) as Hwt.
   { intros ts Hts. constructor; cbn; try apply I. - exact Hts. - rewrite Hd. discriminate. }
-  destruct e as [pid id|pid child k|pid code|pid].
+  destruct e as [pid id|pid child k|pid code|pid sg|pid].
   - unfold step. rewrite Hd. destruct (find_task pid (w_tasks w)) as [t|] eqn:Hf; [|exact I].
     destruct (t_st t) eqn:Hs; try exact I. destruct (find_in _ _ _ Hf) as [Hin _]. destruct (i_tasks w I t Hin) as [_ Ho]. rewrite Ho.
     apply Hwt. apply tasks_ok_upd; [apply (i_tasks w I)|apply setters_ok_st].
@@ -260,12 +305,19 @@ Proof.
   - unfold step. rewrite Hd. destruct (find_task pid (w_tasks w)) as [t|] eqn:Hf; [|exact I].
     destruct (t_st t) eqn:Hs; try exact I.
     apply Hwt. apply tasks_ok_upd; [apply (i_tasks w I)|apply setters_ok_st].
+  - unfold step. rewrite Hd. destruct (find_task pid (w_tasks w)) as [t|] eqn:Hf; [|exact I].
+    destruct (t_st t) eqn:Hs; try exact I. destruct (_ && _)%bool; [|exact I].
+    apply Hwt. apply tasks_ok_upd; [apply (i_tasks w I)|apply setters_ok_st].
   - destruct (find_task pid (w_tasks w)) as [t|] eqn:Hf; [|unfold step; rewrite Hd, Hf; exact I].
-    destruct (t_st t) as [|id|c| |c|] eqn:Hs.
+    destruct (t_st t) as [|id|c| |g|c|] eqn:Hs.
     + unfold step. rewrite Hd, Hf, Hs. exact I.
     + eapply step_sec; eauto.
     + eapply step_other; eauto.
     + eapply step_other; eauto.
+    + (* a signal stop exists only for signals 1..127 *)
+      destruct (N.leb 1 g && N.ltb g 128)%bool eqn:Eg.
+      * apply andb_true_iff in Eg. destruct Eg as [G1 G2]. apply N.leb_le in G1. apply N.ltb_lt in G2. eapply step_sig; eauto.
+      * unfold step. rewrite Hd, Hf, Hs. cbn [wstatus_of]. rewrite Eg. exact I.
     + eapply step_zombie; eauto.
     + unfold step. rewrite Hd, Hf, Hs. exact I.
 Qed.
